@@ -921,8 +921,16 @@ pub fn generate(family: &str, container: &str, seed: u64, index: u64, o: &GenOpt
             if o.prop == "C17" && n >= 1 {
                 // one input that has an item whenever it is polled
                 let p = r.below(n);
+                // every 20th C17 scenario is LONG (all inputs always ready, 100..=150 items each): rotation state that only
+                // misbehaves after hundreds of polls (a narrow counter wrapping at 256, say) is reached
+                let long = index % 20 == 7 && n >= 2;
                 for i in 0..n {
-                    if i == p {
+                    if long {
+                        let m = 100 + r.below(51);
+                        let mut s = vec![Step::Item; m];
+                        s.push(Step::End);
+                        sc.children.push(s);
+                    } else if i == p {
                         let m = 5 + r.below(4);
                         let mut s = vec![Step::Item; m];
                         s.push(Step::End);
